@@ -16,7 +16,7 @@ from mc.common import reset_frame_state, quiet
 
 ID = 'C09'
 LEVEL = 'exploration'
-RULE = ("netlists: 1-3 modules from 14 shapes (soft/hard/fixed x {single rectangle, trunk+N, trunk+N+N, trunk+E+W, trunk+S(+W)}, two of them with integer "
+RULE = ("netlists: 1-3 modules from 21 shapes (soft/hard/fixed x {single rectangle, trunk+N, trunk+N+N, trunk+E+W, trunk+S(+W), two siblings on each side listed against their order, a branch centred on the trunk axis}, two of them with integer "
         "YAML coordinates) placed in distinct slots of the die, max_ratio in {2,3}; configurations per model: input; each movable module translated to each free slot; "
         "soft modules grown 10%; each branch slid 0.2 along its side; and from each legal configuration every perturbation of the menu {cross each die border by 0.5, "
         "stretch a soft rectangle beyond the ratio limit, shrink a soft module's area by 36%, detach a branch by 0.25, slide a branch 0.5 past the trunk end, swap two "
@@ -36,6 +36,10 @@ BR = {
     'N': ('N', 1.6, 2.8, 1.2, 1.0), 'N2': ('N', 2.8, 2.7, 0.8, 0.8),
     'E': ('E', 3.5, 1.5, 0.6, 0.8), 'W': ('W', 0.5, 1.5, 0.6, 0.8), 'S': ('S', 2.0, 0.4, 1.0, 0.6),
 }
+# pairs of siblings on the other sides, LISTED in the order opposite to their position along the side
+W1, W2 = ('W', 0.5, 1.9, 0.6, 0.6), ('W', 0.5, 1.1, 0.6, 0.6)
+E1, E2 = ('E', 3.5, 1.9, 0.6, 0.6), ('E', 3.5, 1.1, 0.6, 0.6)
+S1, S2 = ('S', 2.6, 0.4, 0.8, 0.6), ('S', 1.4, 0.4, 0.8, 0.6)
 ONE = ('T', 2.0, 2.0, 2.0, 1.6)
 SHAPES = {
     'soft1': ('soft', [ONE]), 'softN': ('soft', [T0, BR['N']]), 'softNN': ('soft', [T0, BR['N'], BR['N2']]),
@@ -43,11 +47,14 @@ SHAPES = {
     'hard1': ('hard', [ONE]), 'hardN': ('hard', [T0, BR['N']]), 'hardE': ('hard', [T0, BR['E']]),
     'hardNN': ('hard', [T0, BR['N'], BR['N2']]), 'hardSW': ('hard', [T0, BR['S'], BR['W']]),
     'fixed1': ('fixed', [ONE]), 'fixedN': ('fixed', [T0, BR['N']]),
+    'softWW': ('soft', [T0, W1, W2]), 'softEE': ('soft', [T0, E1, E2]), 'softSS': ('soft', [T0, S1, S2]),
+    'softNNr': ('soft', [T0, BR['N2'], BR['N']]), 'hardWW': ('hard', [T0, W1, W2]), 'hardNE': ('hard', [T0, BR['N'], BR['E']]),
+    'hardT': ('hard', [T0, ('N', 2.0, 2.8, 1.0, 1.0)]),          # a branch centred on the trunk axis (offset exactly 0)
     # integer coordinates (written as YAML ints): trunk [2,2,2,2] + east branch [3.5->4,2,...]: all ints
     'hardE_int': ('hard', [('T', 2, 2, 2, 2), ('E', 4, 2, 2, 2)]),
     'fixedE_int': ('fixed', [('T', 2, 2, 2, 2), ('E', 4, 2, 2, 2)]),
 }
-Q9 = ['soft1', 'softN', 'softNN', 'softEW', 'hard1', 'hardN', 'hardE_int', 'fixed1', 'fixedN']
+Q9 = ['soft1', 'softN', 'softNN', 'softEW', 'hard1', 'hardN', 'hardE_int', 'fixed1', 'fixedN', 'softWW', 'hardNE']
 Q5 = ['softN', 'hardE', 'fixed1', 'softS', 'hardNN']
 T8 = Q5 + ['softEW', 'fixedE_int', 'hardSW']
 
@@ -218,17 +225,20 @@ def perturbations(cfg, die):
                 else:
                     c[mi]['rects'][bi]['y'] -= 0.25
                 out.append((f'hard-offset M{mi}.{bi}', c))
-        sib = [bi for bi in range(1, len(rs)) if rs[bi]['role'] == 'N']
-        if len(sib) == 2:
-            a, b = sib
+        for side in 'NSEW':
+            sib = [bi for bi in range(1, len(rs)) if rs[bi]['role'] == side]
+            if len(sib) != 2:
+                continue
+            ax, ext = ('x', 'w') if side in 'NS' else ('y', 'h')
+            a, b = sorted(sib, key=lambda k: rs[k][ax])            # a before b along the side
             c = copy.deepcopy(cfg)
             ra, rb, t = c[mi]['rects'][a], c[mi]['rects'][b], c[mi]['rects'][0]
-            ra['x'], rb['x'] = t['x'] + t['w'] / 2 - ra['w'] / 2, t['x'] - t['w'] / 2 + rb['w'] / 2     # swapped, apart
-            out.append((f'swap-siblings M{mi}', c))
+            ra[ax], rb[ax] = t[ax] + t[ext] / 2 - ra[ext] / 2, t[ax] - t[ext] / 2 + rb[ext] / 2           # swapped, apart
+            out.append((f'swap-siblings-{side} M{mi}', c))
             c = copy.deepcopy(cfg)
             ra, rb = c[mi]['rects'][a], c[mi]['rects'][b]
-            rb['x'] = ra['x'] + ra['w'] / 2 + rb['w'] / 2 - 0.3                                        # overlapping by 0.3
-            out.append((f'overlap-siblings M{mi}', c))
+            rb[ax] = ra[ax] + ra[ext] / 2 + rb[ext] / 2 - 0.3                                           # overlapping by 0.3
+            out.append((f'overlap-siblings-{side} M{mi}', c))
         if m['kind'] == 'hard':
             c = copy.deepcopy(cfg)
             c[mi]['rects'][0]['w'] -= 0.25
